@@ -508,6 +508,14 @@ def agree_model(c, got, m):
 
 
 def finding_key(c, got, exp):
+    suffix = (":after-derived-genome" if c.get("derive") else "") + \
+             (":empty-chunk" if any(s.get("empty_at") for s in c["streams"]) else "")
+    if c["op"] == "mem_pair":
+        return "mem_pair:second-genome-in-process:wrong-or-silent"
+    return _finding_key(c, got, exp) + suffix
+
+
+def _finding_key(c, got, exp):
     raised = isinstance(got, dict) and got.get("err") == "raised"
     if isinstance(exp, dict) and exp.get("err") == "raised":
         which = []
@@ -633,6 +641,67 @@ def cases(tier, rng):
                         for op in DOUBLE:
                             yield {"names": contigs, "filt": True, "op": op, "streams": [s1, other], "key": key}
                             yield {"names": contigs, "filt": True, "op": op, "streams": [other, s1], "key": key}
+    # 2c. EMPTY chunks (a filtered chunk) at every position of the chunk stream: before the data, between contigs,
+    #     strictly inside a contig's run (also the LAST contig's run), at the end — every consumer
+    contigs = ["chr1", "chr2", "chr3"]
+    for seq in _group_sequences(contigs + [UNK], 3):
+        groups = [[n, [2 * k, 2 * k + 1]] for k, n in enumerate(seq)]          # two entries per contig
+        n_e = 2 * len(seq)
+        variants = [(list(range(1, n_e)), [pos]) for pos in range(0, n_e + 1)]      # one entry per chunk + one empty chunk
+        variants += [([], [0]), ([], [1]), (list(range(1, n_e)), list(range(0, n_e + 1)))]
+        if n_e >= 4:
+            variants += [([2], [1]), ([1, 3], [2, 3]), ([3], [1, 1])]
+        if not big:
+            variants = variants if len(seq) <= 2 else rng.sample(variants, 4) + [variants[-2 if n_e < 4 else -4]] + [(list(range(1, n_e)), [n_e - 1])]
+        for cuts, empty_at in variants:
+            s1 = {"groups": groups, "cuts": cuts, "empty_at": empty_at}
+            for op in ("iter", "ms", "left_join", "genome_mask", "track", "genome_compute"):
+                yield {"names": contigs, "filt": True, "op": op, "streams": [s1]}
+            for op in ("iter", "ms", "left_join"):
+                yield {"names": contigs, "filt": True, "op": op, "streams": [s1], "key": "str"}
+            if big or rng.random() < 0.3:
+                other = {"groups": _with_ids([c for c in contigs if rng.random() < 0.6], rng), "cuts": [], "empty_at": [0]}
+                for op in DOUBLE:
+                    yield {"names": contigs, "filt": True, "op": op, "streams": [s1, other]}
+                    yield {"names": contigs, "filt": True, "op": op, "streams": [other, s1]}
+    # 2d. other genome objects derived from / built next to the genome BEFORE the evaluation (with_ignored_added, more
+    #     objects over the same dict, sort_names): the ORIGINAL must still raise for the added name at every position,
+    #     the derived one must skip exactly the added names
+    names = ["chr1", IGN, "chr2", "chr3"]
+    pool = ["chr1", "chr2", "chr3", IGN, UNK]
+    derives = [{"added": [UNK], "use": "original", "warm": False, "extras": False},
+               {"added": [UNK], "use": "original", "warm": True, "extras": True},
+               {"added": [UNK], "use": "derived", "warm": False, "extras": False},
+               {"added": [UNK, "chr2"], "use": "original", "warm": True, "extras": False},
+               {"added": [UNK, "chr2"], "use": "derived", "warm": False, "extras": True}]
+    for seq in _group_sequences(pool, 3 if not big else 4):
+        if not big and UNK not in seq and rng.random() < 0.5:
+            continue
+        groups = _with_ids(seq, rng)
+        n_e = sum(len(i) for _, i in groups)
+        for dv in derives:
+            for filt in (True, False):
+                cuts = rng.choice(_cut_sets(n_e, "quick", rng))
+                s1 = {"groups": groups, "cuts": cuts}
+                for op in ("iter", "genome_mask", "track", "genome_compute"):
+                    if not big and op in ("track", "genome_compute") and rng.random() < 0.6:
+                        continue
+                    yield {"names": names, "filt": filt, "op": op, "streams": [s1], "derive": dv}
+                if big or rng.random() < 0.25:
+                    yield {"names": names, "filt": filt, "op": "iter_zip", "streams": [s1, {"groups": [], "cuts": []}], "derive": dv}
+                    yield {"names": names, "filt": filt, "op": "iter_zip", "streams": [{"groups": [], "cuts": []}, s1], "derive": dv}
+    # 2e. several genomes over the same sizes in ONE process, in-memory path (encoded chromosome column decoded by each
+    #     genome's own label table): sort_names variants and permuted contig orders, evaluated back to back in one case
+    for base in (["chr2", "chr1", "chr10"], ["chr3", IGN, "chr1", "chr2"], ["chr1", "chr2", "chr3"]):
+        perms = [list(p) for p in itertools.permutations(base)][1:4]
+        genomes = [{"names": base}, {"names": base, "sort": True}] + [{"names": p} for p in perms] + [{"names": base, "filt": False}]
+        for seq in _group_sequences(base + [UNK], 3):
+            if UNK in seq and len(seq) > 2:
+                continue
+            groups = _with_ids(seq, rng)
+            pairs = [(a, b) for a in genomes for b in genomes if a is not b]
+            for a, b in (pairs if big else rng.sample(pairs, 4)):
+                yield {"names": base, "op": "mem_pair", "genomes": [a, b, a], "streams": [{"groups": groups, "cuts": []}]}
     # 3. two-contig genomes where the mis-ordered group follows the LAST contig (the silent position)
     for a in _group_sequences(["chr1", "chr2", UNK], 3):
         for b in _group_sequences(["chr1", "chr2", UNK], 3):
